@@ -17,7 +17,7 @@ def main():
     meta = json.load(open(os.path.join(src, m + ".json"))) if os.path.exists(os.path.join(src, m + ".json")) else {}
     demos = sorted(glob.glob(os.path.join(src, m + "_demo*")) + glob.glob(os.path.join(src, m + "_schema*")))
     res = {"property": prop, "mutant": m, "summary": meta.get("summary", ""), "needs": meta.get("needs", "")}
-    wt = "/tmp/mut/confirm"
+    wt = os.environ.get("SEED_WT", "/tmp/mut/confirm")
     if not skip:
         sh(f"git -C /repo worktree remove --force {wt}"); shutil.rmtree(wt, ignore_errors=True)
         rc, out = sh(f"git -C /repo worktree add -q --detach {wt} HEAD")
@@ -80,6 +80,8 @@ def main():
         sh(f"git -C /repo worktree remove --force {wt}"); shutil.rmtree(wt, ignore_errors=True)
         if not ok:
             print(json.dumps(res, indent=1)); return 3
+        if "--confirm-only" in sys.argv:
+            print(json.dumps(res, indent=1)); return 0
     # run the check against /repo with the change applied
     rc, out = sh(f"git -C /repo apply {diff}")
     if rc != 0:
